@@ -231,6 +231,12 @@ class Universe(object):
             return 5
         if tok == "#s":
             return "x"
+        if tok == "#0":
+            return 0
+        if tok == "#e":
+            return ""
+        if tok == "#t":
+            return ()
         if tok == "#duck":
             d = Duck()
             self.keep.append(d)
@@ -459,7 +465,7 @@ def ops_for(n, cfg):
             out.append(("setp", x, p))
     if cfg.get("nonnode", True):
         for x in labels:
-            for v in ("#5", "#s", "#duck"):
+            for v in ("#5", "#s", "#duck", "#0", "#e", "#t"):   # truthy and falsy non-nodes
                 out.append(("setp", x, v))
     for x in labels:
         out.append(("delc", x))
@@ -476,6 +482,8 @@ def ops_for(n, cfg):
                 out.append(("setc", x, (y, z, y), "tuple"))
             if cfg.get("nonnode", True):
                 out.append(("setc", x, ("#5",), "list"))
+                out.append(("setc", x, ("#0",), "list"))
+                out.append(("setc", x, ("#e", "#t"), "tuple"))
                 for y in labels:
                     out.append(("setc", x, (y, "#5"), "list"))
                     out.append(("setc", x, ("#s", y), "list"))
@@ -496,6 +504,10 @@ def ops_for(n, cfg):
             for y in labels:
                 out.append(("new", z, ck, None, (y, y)))
                 out.append(("new", z, ck, y, (y,)))
+            if cfg.get("nonnode", True):
+                for v in ("#5", "#0", "#e", "#t"):   # constructor with a non-node parent, truthy or falsy
+                    out.append(("new", z, ck, v, None))
+                out.append(("new", z, ck, None, ("#0",)))
     return out
 
 
